@@ -10,6 +10,7 @@ import (
 	"fmt"
 	"os"
 	"path/filepath"
+	"runtime"
 	"sort"
 	"strings"
 	"testing"
@@ -431,6 +432,7 @@ func TestVerif_C03(t *testing.T) {
 	}
 	for _, wc := range worlds {
 		two, label, cidColliders := wc.two, wc.label, wc.cids
+		goroutinesBefore := runtime.NumGoroutine()
 		cache := vkNewCache()
 		epA, err := vkLoadEpoch(wc.config, cache)
 		if err != nil {
@@ -626,6 +628,7 @@ func TestVerif_C03(t *testing.T) {
 		}
 		// (c) an epoch that is not loaded
 		if !task(0) {
+			vkDrain(goroutinesBefore)
 			for _, ep := range eps {
 				ep.Close()
 			}
@@ -638,6 +641,7 @@ func TestVerif_C03(t *testing.T) {
 			grpcBlock(slot, false)
 			jsonBlock(slot, false)
 		}
+		vkDrain(goroutinesBefore)
 		for _, ep := range eps {
 			ep.Close()
 		}
